@@ -49,6 +49,7 @@ func c18Probes(names []string) []string {
 		add(n)
 	}
 	for _, n := range names {
+		add(n)
 		add(n[:len(n)-1])
 		add(n[1:])
 		add("x" + n)
@@ -182,6 +183,12 @@ func init() {
 						for _, cm := range c18Comments {
 							for _, tr := range c18Trailing {
 								add(c18Line{line: body + cm + tr, addr: addr, names: names})
+							}
+						}
+						// a comment whose tail, host syntax on its own, starts exactly at byte 4096 / 8192 of the line
+						for _, at := range []int{4096, 8192} {
+							if pad := at - len(body) - len(" # "); pad > 0 && nn == 1 {
+								add(c18Line{line: body + " # " + strings.Repeat("-", pad-1) + " " + "0.0.0.0 ghost.test", addr: addr, names: names})
 							}
 						}
 					}
